@@ -10,6 +10,11 @@ queries (local/global, thresholds, windows, rettime on/off, returned arrays over
 TimeSeries (or on two series built from the same arrays) and every step is compared with the independent reference on the
 signal the series was built from, with the model (same pk.max / pk.min requests), and with the signal read back from the
 series after the call.  All 2-step (and 3-step) histories over a base set of 8 queries are enumerated on a few signals.
+Units and offsets: the property is stated for all finite signals, so part of every random pool is the same kind of signal in
+another unit (times 2**p, p in -200..200: micro-strain in SI units, forces in N instead of MN) and / or riding on a large mean
+(offset up to 2**30 units).  Powers of two and small integers keep the float arithmetic exact, so the exact reference, the Rat
+model and the affine-map law (a = 2**p, b a multiple of a signal value) still apply without tolerance.  Thresholds include values of the signal itself
+(exact tie: `a threshold only removes values below it`) and the mid level.
 """
 import itertools
 from fractions import Fraction
@@ -20,7 +25,8 @@ from .. import core
 from ..core import rat
 
 RULE = ("all words over {0,1,2,3} of length 1..7 (quick) / 9 (thorough) plus seeded random integer signals (length <= 80, plateaus, few "
-        "crossings) x local/global x thresholds; non-trivial = at least one maximum found; distinct by (signal, mode, threshold). "
+        "crossings; about a third of them in another unit = times 2**p, p in -200..200, and / or on a large offset up to 2**30 units) "
+        "x local/global x thresholds (small integers, a value of the signal, mid level); affine maps a = 2**p (p in -200..200), b = a * k * (a signal value); non-trivial = at least one maximum found; distinct by (signal, mode, threshold). "
         "Query histories: every ordered pair (and triple, on 2 signals) of {maxima,minima} x {global,local} x {no window, inner window} on "
         "6 signals, plus seeded random histories of 2..8 queries (maxima/minima/max/min, thresholds, windows on/between/outside "
         "samples, rettime, 1 or 2 series sharing the source arrays, caller overwriting returned arrays); non-trivial = a step after "
@@ -66,6 +72,38 @@ def ref_local(x):
     return sorted((x[i], i) for i in range(1, len(x) - 1) if x[i - 1] <= x[i] and x[i + 1] < x[i])
 
 
+UNIT_EXP = (-200, -150, -100, -70, -60, -55, -52, -50, -45, -30, -10, 10, 30, 52, 60, 100, 200)
+
+
+def rand_unit(rng):
+    """a power of two: the same physical signal stored in another unit (exact in floating point)"""
+    p = rng.choice(UNIT_EXP) if rng.random() < 0.7 else rng.randint(-200, 200)
+    return Fraction(2) ** p
+
+
+def rescale(rng, x, p_unit=0.3, p_off=0.15):
+    """the signal in another unit and / or riding on a large mean level (still exact: < 45 significant bits)"""
+    if rng.random() < p_off:
+        k = rng.choice([1, -1]) * 2 ** rng.choice([10, 20, 30])
+        x = [v + k for v in x]
+    if rng.random() < p_unit:
+        u = rand_unit(rng)
+        x = [v * u for v in x]
+    return x
+
+
+def rand_threshold(rng, x):
+    """None / small integers (as before) / a value of the signal itself (exact tie) / the mid level"""
+    k = rng.random()
+    if k < 0.4:
+        return None
+    if k < 0.6:
+        return rng.choice([Fraction(rng.randint(-3, 3)), Fraction(1, 2)])
+    if k < 0.85:
+        return rng.choice(x)
+    return (min(x) + max(x)) / 2
+
+
 def gen(chk):
     L = 7 if chk.quick else 9
     for n in range(1, L + 1):
@@ -84,7 +122,12 @@ def gen(chk):
             for _ in range(n):
                 v += rng.choice([-3, -1, -1, 0, 0, 1, 1, 3])
                 x.append(Fraction(v, rng.choice([1, 1, 2])))
-        yield x
+        yield rescale(rng, x)
+    # the short words again, in other units: every crossing corner case at every magnitude
+    for n in range(3, 6 if chk.quick else 7):
+        for w in itertools.product([0, 1, 2, 3], repeat=n):
+            u = rand_unit(rng)
+            yield [Fraction(v) * u for v in w]
 
 
 # ---- query histories on one object ------------------------------------------------------------------------------------------------
@@ -95,6 +138,9 @@ H_READBACK = "returned extrema are the series' signal values at the reported tim
 H_ASC = "maxima in ascending order (minima: the mirrored ascending maxima of the negated signal, i.e. -minima ascending)"
 H_MAXMIN = "TimeSeries.max/min are the extreme signal values (of the window), whatever was queried before"
 H_INTACT = "a peak query leaves the signal and times of the series (and of the arrays / other series it was built from) as they were"
+
+
+AFFINE = "a positive affine map of the signal maps the maxima and keeps their positions"
 
 
 def ref_extrema(x, q, local, thr):
@@ -114,14 +160,14 @@ def window_of(t, tw):
 def rand_signal(rng, n):
     k = rng.random()
     if k < 0.4:
-        return [Fraction(rng.randint(-8, 8)) for _ in range(n)]
+        return rescale(rng, [Fraction(rng.randint(-8, 8)) for _ in range(n)])
     if k < 0.6:
-        return [Fraction(rng.randint(-2, 2)) for _ in range(n)]
+        return rescale(rng, [Fraction(rng.randint(-2, 2)) for _ in range(n)])
     v, x = 0, []
     for _ in range(n):
         v += rng.choice([-3, -1, -1, 0, 0, 1, 1, 3])
         x.append(Fraction(v, rng.choice([1, 1, 2])))
-    return x
+    return rescale(rng, x)
 
 
 def rand_times(rng, n):
@@ -180,7 +226,7 @@ def gen_histories(chk):
         ops = []
         for _ in range(rng.randint(2, 8)):
             q = rng.choice(["maxima", "minima", "minima", "maxima", "max", "min"])
-            thr = rng.choice([None, None, None, Fraction(rng.randint(-3, 3)), Fraction(1, 2)])
+            thr = rand_threshold(rng, x)
             ops.append(mk_op(q, obj=rng.randrange(objects), local=rng.random() < 0.5, thr=thr, twin=rand_twin(rng, t),
                              rettime=rng.random() < 0.8, scribble=rng.random() < 0.3))
         yield mk_hist(x, t, ops, objects)
@@ -295,7 +341,7 @@ def run(chk):
     lines, meta = [], []
     for x in cases:
         xs = " ".join(rat(v) for v in x)
-        thr = rng.choice([None, None, Fraction(rng.randint(-2, 3)), Fraction(1, 2)])
+        thr = rand_threshold(rng, x)
         ts = "-" if thr is None else rat(thr)
         for loc in ("global", "local"):
             lines.append("pk.max %s %s %s" % (loc, ts, xs)); meta.append((x, "max", loc, thr))
@@ -357,7 +403,12 @@ def run(chk):
                 if any(v not in lv for v, _ in im):
                     chk.fail("every global maximum is among the local maxima", inp, "subset", [(str(a), b) for a, b in im])
         else:
-            # minima = mirrored maxima of the negated signal
+            # minima = mirrored maxima of the negated signal: against the independent reference, and against find_maxima(-x)
+            ref = ref_extrema(x, "minima", loc == "local", thr)
+            if ref != im:
+                chk.fail("%s minima are exactly the mirrored %s of the negated signal (threshold negated too)" % (
+                    loc, "first-position excursion maxima" if loc == "global" else "interior peaks"),
+                    inp, [(str(a), b) for a, b in ref], [(str(a), b) for a, b in im])
             m2, i2 = find_maxima(-xf, local=(loc == "local"), threshold=None if thr is None else -float(thr))
             if canon(-m2, i2) != im:
                 chk.fail("minima are the mirrored maxima of the negated signal (threshold negated too)", inp,
@@ -407,11 +458,21 @@ def run(chk):
             if not (np.array_equal(m, m0) and np.array_equal(tm, t[i0])):
                 chk.fail("TimeSeries.maxima(rettime) == find_maxima and reported times are the times at those positions",
                          dict(inp, local=loc), [m0.tolist(), t[i0].tolist()], [np.asarray(m).tolist(), np.asarray(tm).tolist()])
-            a, b = rng.choice([2.0, 0.5, 4.0]), float(rng.randint(-5, 5))
-            m1, i1 = find_maxima(a * xf + b, local=loc)
-            if canon(m1, i1) != sorted((Fraction(a) * v + Fraction(b), i) for v, i in canon(m0, i0)):
-                chk.fail("a positive affine map of the signal maps the maxima and keeps their positions", dict(inp, a=a, b=b, local=loc),
+            # a = 2**p over the whole range of units, b = a * k * (a value of the signal): a*x + b is exact in floating point
+            aq = rng.choice([Fraction(2), Fraction(1, 2), Fraction(4)]) if rng.random() < 0.4 else rand_unit(rng)
+            w = next((abs(v) for v in x if v != 0), Fraction(1))
+            bq = aq * rng.randint(-5, 5) * w
+            a, b = float(aq), float(bq)
+            y = a * xf + b
+            if any(Fraction(float(yv)) != aq * v + bq for yv, v in zip(y, x)):
+                continue                                    # not exact (cannot happen with these pools): no honest exact comparison
+            chk.count("affine")
+            m1, i1 = find_maxima(y, local=loc)
+            if canon(m1, i1) != sorted((aq * v + bq, i) for v, i in canon(m0, i0)):
+                chk.fail(AFFINE, dict(inp, what="affine", a=str(aq), b=str(bq), local=loc),
                          [(float(a * v + b), int(i)) for v, i in zip(m0, i0)], [(float(v), int(i)) for v, i in zip(m1, i1)])
+            elif len(m0):
+                chk.dist("affine:%s" % ("a<2^-40" if aq < Fraction(1, 2 ** 40) else "a>2^40" if aq > 2 ** 40 else "moderate"))
         if ts_.max() != xf.max() or ts_.min() != xf.min():
             chk.fail("TimeSeries.max/min are the extreme signal values", inp, [xf.max(), xf.min()], [ts_.max(), ts_.min()])
         # window: maxima of the windowed signal
@@ -440,10 +501,44 @@ def replay(rp):
     x = [Fraction(v) for v in inp["x"]]
     xf = np.array([float(v) for v in x])
     bad = 0
+    if inp.get("what") == "affine":
+        aq, bq, loc = Fraction(inp["a"]), Fraction(inp["b"]), bool(inp["local"])
+        m0, i0 = find_maxima(xf, local=loc)
+        m1, i1 = find_maxima(float(aq) * xf + float(bq), local=loc)
+        exp = sorted((aq * v + bq, i) for v, i in canon(m0, i0))
+        print("a=%s b=%s %s: maxima of x %s\n   mapped %s\n   maxima of a*x+b %s" % (
+            float(aq), float(bq), "local" if loc else "global", [(float(v), i) for v, i in canon(m0, i0)],
+            [(float(v), i) for v, i in exp], [(float(v), i) for v, i in canon(m1, i1)]))
+        if canon(m1, i1) != exp:
+            print("FAILS: " + AFFINE)
+            bad += 1
+        print("replay: %d failing clause(s)" % bad)
+        return 1 if bad else 0
+    thr = None if inp.get("threshold") is None else Fraction(inp["threshold"])
+    if inp.get("what") in ("max", "min") and inp.get("mode") in ("global", "local"):
+        # the recorded query itself (mode and threshold; minima through TimeSeries.minima and as mirrored maxima)
+        from qats import TimeSeries
+        loc = inp["mode"] == "local"
+        tf = None if thr is None else float(thr)
+        ref = ref_extrema(x, "maxima" if inp["what"] == "max" else "minima", loc, thr)
+        if inp["what"] == "max":
+            m, i = find_maxima(xf, local=loc, threshold=tf)
+            got = canon(m, i)
+            asc = not any(b < a for a, b in zip(m, m[1:]))
+        else:
+            t = np.arange(len(x), dtype=float) * 0.5 + 3.0
+            m, tm = TimeSeries("s", t, xf).minima(local=loc, threshold=tf, rettime=True)
+            got = canon(m, np.round((tm - 3.0) / 0.5).astype(int))
+            m2, i2 = find_maxima(-xf, local=loc, threshold=None if tf is None else -tf)
+            asc = canon(-m2, i2) == got
+        print("%s %s threshold=%s impl %s reference %s" % (inp["mode"], inp["what"], thr, [(float(a), b) for a, b in got],
+                                                           [(float(a), b) for a, b in ref]))
+        if got != ref or not asc:
+            bad += 1
     for loc in (False, True):
         m, i = find_maxima(xf, local=loc)
         ref = ref_local(x) if loc else ref_global(x)
-        print("local" if loc else "global", "impl", canon(m, i), "reference", ref)
+        print("local" if loc else "global", "impl", [(float(a), b) for a, b in canon(m, i)], "reference", [(float(a), b) for a, b in ref])
         if canon(m, i) != ref:
             bad += 1
     print("replay: %d failing clause(s)" % bad)
